@@ -144,11 +144,19 @@ func (e *eng) envCase(r layRow, i int) {
 	d := e.env.Sub("env")
 	v := func(l int) string { return fmt.Sprintf("v%d", r.val(l)) }
 	var y strings.Builder
+	// the context's VARIABLES are not environment: with or without a context env level the task runs
+	// in a context whose variables name X and UNTOUCHED (every other row)
+	ctxVars := ""
+	if i%2 == 0 {
+		ctxVars = "    variables:\n      X: from-context-variables\n      UNTOUCHED: from-context-variables\n"
+	}
 	if r.has(2) {
-		fmt.Fprintf(&y, "contexts:\n  ctx:\n    env:\n      X: %s\n", yq(v(2)))
+		fmt.Fprintf(&y, "contexts:\n  ctx:\n    env:\n      X: %s\n%s", yq(v(2)), ctxVars)
+	} else if ctxVars != "" {
+		y.WriteString("contexts:\n  ctx:\n" + ctxVars)
 	}
 	y.WriteString("tasks:\n  t:\n")
-	if r.has(2) {
+	if r.has(2) || ctxVars != "" {
 		y.WriteString("    context: ctx\n")
 	}
 	if r.has(3) {
@@ -317,7 +325,7 @@ func (e *eng) varCase(r layRow, i int) {
 	if r.has(3) {
 		fmt.Fprintf(&y, "    variables:\n      w: %s\n", yq(v(3)))
 	}
-	fmt.Fprintf(&y, "    command:\n      - echo first >> %s\n      - echo \"OBS w=[{{.w}}] root=[{{.Root}}] tmp=[{{.TempDir}}] args=[{{.Args}}] list={{.ArgsList}}\"\n", filepath.Join(d, "trace"))
+	fmt.Fprintf(&y, "    command:\n      - echo first >> %s\n      - echo \"OBS w=[{{.w}}] root=[{{.Root}}] tmp=[{{.TempDir}}] args=[{{.Args}}] list={{.ArgsList}} o=[{{.other}}]\"\n", filepath.Join(d, "trace"))
 	y.WriteString("pipelines:\n  p:\n    - task: t\n")
 	if r.has(4) {
 		fmt.Fprintf(&y, "      variables:\n        w: %s\n", yq(v(4)))
@@ -327,6 +335,8 @@ func (e *eng) varCase(r layRow, i int) {
 	if r.has(2) {
 		args = append(args, "--set", "w="+v(2))
 	}
+	// one --set is one assignment, whatever its value contains (commas, further NAME= pairs, '=')
+	args = append(args, "--set", "other=a,w=hijacked=1")
 	if r.Mode == "stage" {
 		// the pipeline, then a direct run of the same task: the stage's variables must be gone
 		args = append(args, "p", "t")
@@ -350,7 +360,7 @@ func (e *eng) varCase(r layRow, i int) {
 		}
 	}
 	line := func(x int) string {
-		return fmt.Sprintf("w=[v%d] root=[%s] tmp=[%s] args=[] list=[]", x, dd, os.TempDir())
+		return fmt.Sprintf("w=[v%d] root=[%s] tmp=[%s] args=[] list=[] o=[a,w=hijacked=1]", x, dd, os.TempDir())
 	}
 	var want []string
 	wantFail := false
